@@ -1,39 +1,56 @@
 """C04 - Cursor fetches deliver every row exactly once, in order.
 
 Case:  {"lazy": bool, "n": rows, "ops": [op, ...], optional "seq": "tuple", optional "schema": "relation"}   op =
-  ["fetchone"] | ["fetchmany", k|None] | ["fetchall"] | ["arraysize", n] | ["obs", name] | ["append"]
+  ["fetchone"] | ["fetchmany", k|None] | ["fetchall"] | ["arraysize", n] | ["append"]
   | ["append_bad", kind]      an append whose entry makes DataFrame.append raise (kinds: BAD_KINDS)
-Rows are the 1-tuples (0,), (1,), ...; appended rows are (1000+j,), so a row is
-identified by its integer and "skipped / repeated" is directly visible.  The j-th rejected
+  | ["obs", name]             a read-only observer in its round-1 form (fixed arguments)
+  | ["obs", name, [args]]     the observer called with these arguments (OBS_ARGS lists the pools)
+  | ["derive", name, [args]]  a frame-returning observer (slice/head/tail/query/query_even/distinct) whose RESULT IS KEPT
+                              as a new frame of the session: frames are numbered 0 (the case's frame), 1, 2, ... in
+                              order of creation
+  | ["on", k, op]             op (any of the above, derive included) called on frame k; an op that is not wrapped is
+                              called on frame 0
+Rows are the 1-tuples (0,), (1,), ...; appended rows are (1000+j,) (j counts the stored-append calls of the whole
+session), so a row is identified by its integer and "skipped / repeated" is directly visible.  The j-th rejected
 entry that could be stored as a row at all carries the id -(100+j) (a too-wide integer) or -2.
 "schema": "relation" builds the frame over a RelationSchema (one INTEGER column), so append
 starts with schema validation and takes dict entries.
 Observed: one entry per op: ["row", id|None] | ["rows", [ids]] | ["unit"] | ["raise", exc]
   | ["append", returned_normally, length of the row store right after the call | None, exc|None]
-(the store length is read off the frame's list without calling any DataFrame method)."""
+  | ["count", n] | ["seen", [ids]]       what a read-only observer reported (row count / the rows it showed)
+  | ["derived", [ids], fresh]            the rows of the frame handed back; fresh = it is not one of the session's frames
+  | ["bad"]                              no such frame
+(the store length / the rows of a returned frame are read off the frame's list without calling any DataFrame method)."""
 import itertools
 
 from vlib import coqlit as L
 
 ID = "C04"
 READY = True
-TECHNIQUE = "Coq proof by induction over call histories (cursor state machine) + model/implementation correspondence evaluated in Coq, exhaustive small scope"
+TECHNIQUE = "Coq proof by induction over call histories (cursor state machine, sessions over several frames) + model/implementation correspondence evaluated in Coq, exhaustive small scope"
 LEVEL_TEXT = ("Machine-checked Coq theorems over an executable cursor model, for every row list and every finite history: fetched rows "
-              "concatenate to a prefix in order, fetchmany(k) returns min(k, remaining), exhaustion answers, observers inert, refusal after "
-              "append, and the same contract for a lazily backed frame read only through the cursor. The model is tied to dataframe.py by "
+              "concatenate to a prefix in order, fetchmany(k) returns min(k, remaining), exhaustion answers, observers inert and reporting "
+              "the row store only, refusal after append, atomic append, independence of the frames of a session (a frame handed back by "
+              "slice/head/tail/query/distinct is a new object), and the same contract for a lazily backed frame read only through the cursor. "
+              "The model is tied to dataframe.py by "
               "running real DataFrames through all histories of a small scope (exhaustively) and random deeper ones and evaluating the model "
               "on the same histories inside Coq; a direct property oracle on the implementation supplies replayable failing histories.")
 LEVEL_NOTE = ("Trusted: Coq kernel + vm_compute; the hand-written model of _cursor/materialize (validated, not verified, against CPython iterator "
-              "semantics by the correspondence run); the harness's classification of observers as materialising or not. No axioms (Print Assumptions: closed).")
+              "semantics by the correspondence run); the harness's classification of observers as materialising or not and of what they report. "
+              "No axioms (Print Assumptions: closed).")
 DESIGN_REF = "DESIGN.md section 8, C04"
 COQ_IMPORTS = "From Orso Require Import Model.C04."
-COQ_CHECKS = {"hist": "c04_check"}
-COQ_SHOW = {"hist": "c04_show"}
-RULE = ("histories over {fetchone, fetchmany(k), fetchmany(), fetchall, arraysize change, real read-only observers, append, "
+COQ_CHECKS = {"hist": "c04_check", "sess": "c04_scheck"}
+COQ_SHOW = {"hist": "c04_show", "sess": "c04_sshow"}
+RULE = ("histories over {fetchone, fetchmany(k), fetchmany(), fetchall, arraysize change, real read-only observers (each with a pool of "
+        "argument values, 'no limit' values included; what they report is recorded), append, "
         "append of an entry that makes append raise (rejected by validation / by the row factory / by Row.nbytes)} "
         "run on a real DataFrame (eager: list-backed, over a name list or a RelationSchema; lazy: generator-backed, cursor-only "
-        "histories plus failing append calls); after every append call the length of the row store is recorded; exhaustive over "
-        "rows 0..3 x histories up to the stated depth over a 12-letter alphabet, then random deeper histories; "
+        "histories plus failing append calls); sessions over several frames: the frame handed back by slice/head/tail/query/distinct "
+        "is kept and fetched from / appended to, interleaved with calls on the frame it came from; "
+        "after every append call the length of the row store is recorded; exhaustive over "
+        "rows 0..3 x histories up to the stated depth over a 12-letter alphabet, every observer variant at every cursor position, "
+        "every deriving call x 4 session scripts, then random deeper histories and sessions; "
         "a case is non-trivial when at least one fetch delivered a row; distinct by canonical JSON")
 TRUSTED = [
     "C04 model (coq/Model/C04.v): cursor as a position in the row list (eager) / as the generator itself (lazy); "
@@ -41,10 +58,14 @@ TRUSTED = [
     "modelled, not verified: CPython list-iterator and generator semantics behind DataFrame._cursor",
     "the harness's classification of an entry as one that makes append raise (AppendBad) - a wrong classification shows as a "
     "mismatch on the append's own output; the row-store length after an append is read from DataFrame._rows (a list) directly",
+    "the harness's mapping of an observer call to the view it reports (row count / rows of slice(off, len)) - a wrong mapping shows "
+    "as a mismatch on the observer's own output; the rows of a frame handed back are read from its _rows list directly",
 ]
 ASSUMPTIONS = [
     "lazy frames are exercised only through the cursor (plus observers that do not materialise), as the property states",
     "rows are identified by distinct integers in the harness; the theorems are over an arbitrary row type",
+    "select / filter / take hand back views that read their source when first iterated (by design, fix 75a1e72): they are not "
+    "in the session model",
 ]
 
 PURE_OBS = ["column_names", "columncount", "arraysize_read"]
@@ -108,6 +129,182 @@ def _schema_kind(case):
 
 
 MAT_OBS = ["rowcount", "len", "shape", "collect", "iter", "slice", "arrow", "display", "str", "head", "tail", "getitem", "row", "markdown", "nbytes", "distinct", "query"]
+# observers taking arguments: name -> the argument lists tried on a frame of n rows ("no limit" values included)
+DERIVERS = ["slice", "head", "tail", "query", "query_even", "distinct"]
+
+
+def OBS_ARGS(n):
+    lims = [[], [0], [1], [n], [n + 1], [-1]]
+    return {
+        "collect": lims,
+        "arrow": [[], [0], [1], [n + 1], [-1]],
+        "markdown": lims + [[5]],
+        "display": [[0], [1], [n + 1], [-1]],
+        "slice": [[]] + [[o, ln] for o in sorted({-n - 1, -1, 0, 1, n}) for ln in (None, 0, 1, n, n + 1, -1)],
+        "head": lims,
+        "tail": lims,
+        "row_at": [[i] for i in range(-n, n)],
+        "to_batches": [[1], [2], [n + 1]],
+        "query": [[]],
+        "query_even": [[]],
+        "distinct": [[]],
+        "rowcount": [[]], "len": [[]], "shape": [[]], "iter": [[]], "getitem": [[]], "str": [[]], "nbytes": [[]],
+        "description": [[]], "hash": [[]], "repr": [[]],
+    }
+
+
+def _derive_args(n):
+    a = OBS_ARGS(n)
+    return [(name, args) for name in DERIVERS for args in a[name]]
+
+
+def _ids(frame_or_rows):
+    rows = frame_or_rows._rows if hasattr(frame_or_rows, "_rows") else frame_or_rows
+    if not isinstance(rows, list):
+        rows = list(rows)
+    return [_rid(r) for r in rows]
+
+
+def _vals(x):
+    return x.tolist() if hasattr(x, "tolist") else list(x)
+
+
+def _md_ids(text):
+    out = []
+    for line in text.split("\n")[2:]:
+        cells = line.split("|")
+        out.append(int(cells[2].strip()))
+    return out
+
+
+def _call_deriver(df, name, args):
+    if name == "slice":
+        return df.slice(*args)
+    if name == "head":
+        return df.head(*args)
+    if name == "tail":
+        return df.tail(*args)
+    if name == "query":
+        return df.query(lambda r: True)
+    if name == "query_even":
+        return df.query(lambda r: isinstance(r[0], int) and r[0] % 2 == 0)
+    if name == "distinct":
+        return df.distinct()
+    raise KeyError(name)
+
+
+def _observer_args(df, name, args):
+    """the observer called with explicit arguments; returns what it reported: ["count", n] | ["seen", ids] | ["unit"]"""
+    if name in ("rowcount", "len", "shape"):
+        v = df.rowcount if name == "rowcount" else (len(df) if name == "len" else df.shape[0])
+        return ["count", int(v)]
+    if name == "collect":
+        r = df.collect(0, *args)
+        return ["seen", [_rid((x,)) for x in _vals(r)]]
+    if name == "getitem":
+        return ["seen", [_rid((x,)) for x in _vals(df["a"])]]
+    if name == "iter":
+        return ["seen", [_rid(r) for r in list(df)]]
+    if name == "arrow":
+        t = df.arrow(*args)
+        return ["seen", [_rid((x,)) for x in (t.column(0).to_pylist() if t.num_columns else [])]]
+    if name == "markdown":
+        return ["seen", _md_ids(df.markdown(*args))]
+    if name in DERIVERS:
+        r = _call_deriver(df, name, args)
+        return ["seen", _ids(r)] if name != "query_even" else ["unit"]
+    if name == "row_at":
+        return ["seen", [_rid(df.row(args[0]))]]
+    if name == "to_batches":
+        out = []
+        for b in df.to_batches(*args):
+            out.extend(_ids(b))
+        return ["seen", out]
+    if name == "display":
+        df.display(limit=args[0], colorize=False)
+    elif name == "str":
+        str(df)
+    elif name == "repr":
+        repr(df)
+    elif name == "nbytes":
+        df.nbytes()
+    elif name == "description":
+        df.description
+    elif name == "hash":
+        hash(df)
+    else:
+        raise KeyError(name)
+    return ["unit"]
+
+
+def _py_slice(store, off, ln):
+    """DataFrame.slice(off, ln) in terms of Python's own list slicing"""
+    if off < 0:
+        off = max(0, len(store) + off)
+    if ln is None:
+        return store[off:]
+    if ln == 0:
+        return []
+    return store[off:off + ln]
+
+
+def _view(name, args):
+    """the view an observer call reports, for the Coq model: ("count",) | ("rows", off, len) | None"""
+    if name in ("rowcount", "len", "shape"):
+        return ("count",)
+    if name in ("collect", "arrow"):
+        lim = args[0] if args else None
+        return ("rows", 0, None if lim is None or lim < 0 else lim)
+    if name in ("getitem", "iter", "query", "distinct", "to_batches"):
+        return ("rows", 0, None)
+    if name == "markdown":
+        lim = args[0] if args else 5
+        return ("rows", 0, lim if lim > 0 else None)
+    if name == "slice":
+        a = list(args) + [0, None][len(args):]
+        return ("rows", a[0], a[1])
+    if name == "head":
+        return ("rows", 0, args[0] if args else 5)
+    if name == "tail":
+        k = args[0] if args else 5
+        return ("rows", 0 - k, k)
+    if name == "row_at":
+        return ("rows", args[0], 1)
+    return None
+
+
+def _expected_report(name, args, store):
+    """what the observer has to report on a frame holding `store` - written with Python's own slicing, independently of
+    _view / the Coq model; None = nothing is required of the report"""
+    if name in ("rowcount", "len", "shape"):
+        return ["count", len(store)]
+    if name in ("collect", "arrow"):
+        lim = args[0] if args else None
+        return ["seen", list(store) if lim is None or lim < 0 else store[:lim]]
+    if name in ("getitem", "iter", "query", "distinct", "to_batches"):
+        return ["seen", list(store)]
+    if name == "markdown":
+        lim = args[0] if args else 5
+        return ["seen", store[:lim] if lim > 0 else list(store)]
+    if name == "slice":
+        a = list(args) + [0, None][len(args):]
+        return ["seen", _py_slice(store, a[0], a[1])]
+    if name == "head":
+        return ["seen", _py_slice(store, 0, args[0] if args else 5)]
+    if name == "tail":
+        k = args[0] if args else 5
+        return ["seen", _py_slice(store, 0 - k, k)]
+    if name == "row_at":
+        return ["seen", [store[args[0]]]]
+    if name == "query_even":
+        return None
+    return None
+
+
+def _expected_derived(name, args, store):
+    if name == "query_even":
+        return [x for x in store if x % 2 == 0]
+    return _expected_report(name, args, store)[1]
 
 
 def _observer(df, name):
@@ -154,6 +351,17 @@ def _observer(df, name):
     raise KeyError(name)
 
 
+def _unwrap(op):
+    """(frame index, op)"""
+    if op[0] == "on":
+        return op[1], op[2]
+    return 0, op
+
+
+def _is_session(case):
+    return any(o[0] == "on" or o[0] == "derive" for o in case["ops"])
+
+
 def observe(case):
     from orso.dataframe import DataFrame
 
@@ -174,10 +382,16 @@ def observe(case):
         df = DataFrame(rows=tuple(rows), schema=["a"])
     else:
         df = DataFrame(rows=list(rows), schema=["a"])
+    frames = [df]
     outs = []
     appended = 0
     bad = 0
-    for op in case["ops"]:
+    for wop in case["ops"]:
+        fi, op = _unwrap(wop)
+        if not (isinstance(fi, int) and 0 <= fi < len(frames)):
+            outs.append(["bad"])
+            continue
+        df = frames[fi]
         if op[0] in ("append", "append_bad"):
             if op[0] == "append":
                 entry = {"a": 1000 + appended} if rel else (1000 + appended,)
@@ -208,8 +422,16 @@ def observe(case):
                 df.arraysize = op[1]
                 outs.append(["unit"])
             elif k == "obs":
-                _observer(df, op[1])
-                outs.append(["unit"])
+                if len(op) > 2:
+                    outs.append(_observer_args(df, op[1], op[2]))
+                else:
+                    _observer(df, op[1])
+                    outs.append(["unit"])
+            elif k == "derive":
+                new = _call_deriver(df, op[1], op[2])
+                fresh = all(new is not f for f in frames)
+                frames.append(new)
+                outs.append(["derived", _ids(new), fresh])
             else:
                 raise KeyError(k)
         except KeyError:
@@ -220,59 +442,104 @@ def observe(case):
 
 
 def oracle(case, outs):
-    """The property, read literally, evaluated on what the implementation returned."""
-    rows = list(range(case["n"]))
-    pos = 0
-    asz = 100
-    dead = False          # a row has been appended (the frame has grown)
-    count = len(rows)     # rows in the frame
-    for i, (op, out) in enumerate(zip(case["ops"], outs)):
+    """The property, read literally, evaluated on what the implementation returned.  Every frame of a session is a
+    frame of its own: its fetch calls are judged against ITS rows and ITS history only."""
+    frames = [{"rows": list(range(case["n"])), "store": list(range(case["n"])), "pos": 0, "asz": 100, "dead": False,
+               "lazy": case["lazy"], "judged": True}]
+    appended = 0
+    bad = 0
+    for i, (wop, out) in enumerate(zip(case["ops"], outs)):
+        fi, op = _unwrap(wop)
         k = op[0]
-        where = f"op {i} {op}"
+        where = f"op {i} {wop}"
+        entry_id = None
+        if k == "append":
+            entry_id = 1000 + appended
+            appended += 1
+        elif k == "append_bad":
+            entry_id = _bad_id(op[1], bad)
+            bad += 1
+        if not (isinstance(fi, int) and 0 <= fi < len(frames)):
+            continue
+        fr = frames[fi]
+        if not fr["judged"]:
+            if k == "derive" and out[0] == "derived":
+                frames.append({"judged": False})
+            continue
+        rows = fr["rows"]
         if k in ("fetchone", "fetchmany", "fetchall"):
-            if dead:
+            if fr["dead"]:
                 if out[0] != "raise":
-                    return f"{where}: the frame has grown to {count} rows by append, fetch must refuse to run, returned {out}"
+                    return f"{where}: the frame has grown to {len(fr['store'])} rows by append, fetch must refuse to run, returned {out}"
                 continue
             if out[0] == "raise":
-                return f"{where}: fetch raised {out[1]} although no row was appended"
+                return f"{where}: fetch raised {out[1]} although no row was appended to this frame"
+            pos = fr["pos"]
             if k == "fetchone":
                 want = rows[pos] if pos < len(rows) else None
                 if out != ["row", want]:
                     return f"{where}: expected row {want} (next undelivered row, None after exhaustion), got {out}"
                 if want is not None:
-                    pos += 1
+                    fr["pos"] += 1
             elif k == "fetchmany":
-                size = asz if op[1] is None else op[1]
+                size = fr["asz"] if op[1] is None else op[1]
                 want = rows[pos:pos + max(0, size)]
                 if out != ["rows", want]:
                     return f"{where}: expected the next min(k, remaining) rows {want}, got {out}"
-                pos += len(want)
+                fr["pos"] += len(want)
             else:
                 want = rows[pos:]
                 if out != ["rows", want]:
                     return f"{where}: expected all remaining rows {want}, got {out}"
-                pos = len(rows)
+                fr["pos"] = len(rows)
         elif k == "arraysize":
-            asz = op[1]
+            fr["asz"] = op[1]
             if out != ["unit"]:
                 return f"{where}: setting arraysize raised {out}"
         elif k == "obs":
-            if out != ["unit"]:
+            if fr["lazy"]:
+                if op[1] not in PURE_OBS:
+                    fr["judged"] = False   # a lazy frame read otherwise than through the cursor: outside the contract
+                elif out != ["unit"]:
+                    return f"{where}: read-only observer raised {out}"
+                continue
+            if len(op) > 2 and op[1] == "row_at" and not (-len(fr["store"]) <= op[2][0] < len(fr["store"])):
+                continue   # no such row: nothing is required
+            if out[0] == "raise":
                 return f"{where}: read-only observer raised {out}"
+            if len(op) > 2:
+                want = _expected_report(op[1], op[2], fr["store"])
+                if want is not None and out != want:
+                    return (f"{where}: a read-only observation reports the frame's rows whatever the cursor has delivered: "
+                            f"expected {want}, got {out}")
+            elif out != ["unit"]:
+                return f"{where}: read-only observer raised {out}"
+        elif k == "derive":
+            if out[0] == "raise":
+                return f"{where}: read-only observer raised {out}"
+            if fr["lazy"]:
+                fr["judged"] = False
+                frames.append({"judged": False})
+                continue
+            want = _expected_derived(op[1], op[2], fr["store"])
+            if out[0] != "derived" or out[1] != want:
+                return f"{where}: the frame handed back must hold the rows {want} of the frame it was taken from, got {out}"
+            # the frame handed back is a frame like any other: its own rows, cursor before its first row
+            frames.append({"rows": list(want), "store": list(want), "pos": 0, "asz": 100, "dead": False, "lazy": False, "judged": True})
         elif k in ("append", "append_bad"):
-            if case["lazy"]:
+            if fr["lazy"]:
                 continue  # outside the contract (lazy frames are read only through the cursor)
             if out[0] != "append" or out[2] is None:
                 return f"{where}: no append outcome / row-store length recorded on a materialised frame: {out}"
             ok, after = out[1], out[2]
+            count = len(fr["store"])
             if k == "append" and not ok:
                 return f"{where}: append raised {out[3]}"
             if after == count + 1:
                 # a row has been appended - whether or not the call then raised: from here on
                 # every fetch call has to refuse
-                dead = True
-                count = after
+                fr["dead"] = True
+                fr["store"].append(entry_id)
             elif after == count:
                 if ok:
                     return f"{where}: append returned normally but the frame still has {count} rows"
@@ -282,7 +549,13 @@ def oracle(case, outs):
     return None
 
 
-def _coq_op(op):
+def _coq_view(v):
+    if v[0] == "count":
+        return "VCount"
+    return "(VRows %s %s)" % (L.Z(v[1]), L.opt(None if v[2] is None else L.Z(v[2])))
+
+
+def _coq_op(op, ctr):
     k = op[0]
     if k == "fetchone":
         return "FetchOne"
@@ -293,42 +566,76 @@ def _coq_op(op):
     if k == "arraysize":
         return "(SetArraysize %s)" % L.Z(op[1])
     if k == "obs":
-        return "ObservePure" if op[1] in PURE_OBS else "ObserveMat"
+        if op[1] in PURE_OBS:
+            return "ObservePure"
+        v = _view(op[1], op[2]) if len(op) > 2 else None
+        return "ObserveMat" if v is None else "(ObserveView %s)" % _coq_view(v)
+    if k == "append":
+        ctr["good"] += 1
+        return "(Append %s)" % L.Z(1000 + ctr["good"] - 1)
+    if k == "append_bad":
+        ctr["bad"] += 1
+        return "(AppendBad %s)" % L.Z(_bad_id(op[1], ctr["bad"] - 1))
     raise KeyError(k)
 
 
+def _coq_dop(name, args):
+    if name in ("query", "distinct"):
+        return "(DQuery (fun _ : Z => true))"
+    if name == "query_even":
+        return "(DQuery Z.even)"
+    v = _view(name, args)
+    return "(DSlice %s %s)" % (L.Z(v[1]), L.opt(None if v[2] is None else L.Z(v[2])))
+
+
+def _coq_out(o):
+    if o[0] == "row":
+        return "(ORow %s)" % L.opt(None if o[1] is None else L.Z(o[1]))
+    if o[0] == "rows":
+        return "(ORows %s)" % L.lst(L.Z(x) for x in o[1])
+    if o[0] == "unit":
+        return "OUnit"
+    if o[0] == "append":
+        return "(OAppend %s %s)" % (L.boolean(o[1]), L.opt(None if o[2] is None else L.nat(o[2])))
+    if o[0] == "count":
+        return "(OCount %s)" % L.nat(o[1])
+    if o[0] == "seen":
+        return "(OSeen %s)" % L.lst(L.Z(x) for x in o[1])
+    return "ORaise"
+
+
 def to_coq(case, outs):
+    for wop, o in zip(case["ops"], outs):
+        op = _unwrap(wop)[1]
+        if op[0] == "obs" and len(op) > 2 and op[1] == "row_at" and o[0] == "raise":
+            return None   # row(i) with no such row: outside the model
+    ctr = {"good": 0, "bad": 0}
+    base = "(%s : list Z)" % L.lst(L.Z(i) for i in range(case["n"]))
+    if not _is_session(case):
+        ops = [_coq_op(op, ctr) for op in case["ops"]]
+        cobs = [_coq_out(o) for o in outs]
+        term = "(%s, %s, (%s : list (op Z)), (%s : list (out Z)))" % (L.boolean(case["lazy"]), base, L.lst(ops), L.lst(cobs))
+        return ("hist", term)
     ops = []
-    j = 0
-    b = 0
-    for op in case["ops"]:
-        if op[0] == "append":
-            ops.append("(Append %s)" % L.Z(1000 + j))
-            j += 1
-        elif op[0] == "append_bad":
-            ops.append("(AppendBad %s)" % L.Z(_bad_id(op[1], b)))
-            b += 1
-        else:
-            ops.append(_coq_op(op))
     cobs = []
-    for o in outs:
-        if o[0] == "row":
-            cobs.append("(ORow %s)" % L.opt(None if o[1] is None else L.Z(o[1])))
-        elif o[0] == "rows":
-            cobs.append("(ORows %s)" % L.lst(L.Z(x) for x in o[1]))
-        elif o[0] == "unit":
-            cobs.append("OUnit")
-        elif o[0] == "append":
-            cobs.append("(OAppend %s %s)" % (L.boolean(o[1]), L.opt(None if o[2] is None else L.nat(o[2]))))
+    for wop, o in zip(case["ops"], outs):
+        fi, op = _unwrap(wop)
+        if not isinstance(fi, int) or fi < 0:
+            return None
+        if op[0] == "derive":
+            ops.append("(Derive %s %s)" % (L.nat(fi), _coq_dop(op[1], op[2])))
         else:
-            cobs.append("ORaise")
-    term = "(%s, %s, (%s : list (op Z)), (%s : list (out Z)))" % (
-        L.boolean(case["lazy"]),
-        "(%s : list Z)" % L.lst(L.Z(i) for i in range(case["n"])),
-        L.lst(ops),
-        L.lst(cobs),
-    )
-    return ("hist", term)
+            ops.append("(On %s %s)" % (L.nat(fi), _coq_op(op, ctr)))
+        if o[0] == "bad":
+            cobs.append("SBad")
+        elif o[0] == "derived":
+            cobs.append("(SDerived %s)" % L.lst(L.Z(x) for x in o[1]))
+        elif op[0] == "derive":
+            return None   # the deriving call raised: outside the model
+        else:
+            cobs.append("(SOut %s)" % _coq_out(o))
+    term = "(%s, %s, (%s : list (sop Z)), (%s : list (sout Z)))" % (L.boolean(case["lazy"]), base, L.lst(ops), L.lst(cobs))
+    return ("sess", term)
 
 
 def nontrivial_key(case, outs):
@@ -342,13 +649,30 @@ def classify(case, outs):
     yield "lazy" if case["lazy"] else ("eager-tuple" if case.get("seq") == "tuple" else "eager")
     if case.get("schema") == "relation":
         yield "relation-schema"
+    if _is_session(case):
+        yield "session"
     yield "rows=%d" % min(case["n"], 4) + ("+" if case["n"] > 4 else "")
     yield "depth=%d" % min(len(case["ops"]), 8) + ("+" if len(case["ops"]) > 8 else "")
     seen_fail = False
-    for op, o in zip(case["ops"], outs):
+    derived = 0
+    for wop, o in zip(case["ops"], outs):
+        fi, op = _unwrap(wop)
         yield "op:" + op[0]
         if op[0] == "append_bad":
             yield "bad:" + op[1]
+        if op[0] == "obs" and len(op) > 2:
+            yield "obs-with-args:" + op[1]
+            if op[1] in ("markdown", "collect", "arrow", "display") and op[2] and op[2][0] <= 0:
+                yield "obs-no-limit-value"
+        if op[0] == "derive" and o[0] == "derived":
+            derived += 1
+            yield "derive:" + op[1]
+            if o[1] == list(range(case["n"])) and case["n"] > 0:
+                yield "derive-covers-whole-frame"
+        if fi != 0 and op[0] in ("fetchone", "fetchmany", "fetchall"):
+            yield "fetch-on-derived-frame"
+        if fi != 0 and op[0] == "append":
+            yield "append-on-derived-frame"
         if o[0] == "append" and not o[1]:
             seen_fail = True
         elif seen_fail and op[0] in ("fetchone", "fetchmany", "fetchall"):
@@ -387,6 +711,23 @@ def corpus():
                     yield c
 
 
+def _obs_variants(n):
+    a = OBS_ARGS(n)
+    return [(name, args) for name in sorted(a) for args in a[name]]
+
+
+def _session_scripts(n):
+    """what is done with a frame handed back (frame 1) and the frame it came from (frame 0)"""
+    one = lambda k, op: ["on", k, op]
+    yield [one(1, ["fetchall"]), one(1, ["fetchone"]), one(0, ["fetchmany", 2]), one(0, ["fetchall"]), one(0, ["fetchone"])]
+    inter = []
+    for _ in range(n + 1):
+        inter += [one(1, ["fetchone"]), one(0, ["fetchone"])]
+    yield inter
+    yield [one(1, ["append"]), one(0, ["obs", "rowcount", []]), one(0, ["fetchall"]), one(1, ["fetchone"]), one(1, ["obs", "rowcount", []])]
+    yield [one(0, ["append"]), one(1, ["obs", "rowcount", []]), one(1, ["fetchmany", 1]), one(1, ["fetchall"]), one(0, ["fetchone"])]
+
+
 def exhaustive(tier):
     depth = 3 if tier == "quick" else 4
     rdepth = 2 if tier == "quick" else 3
@@ -415,8 +756,36 @@ def exhaustive(tier):
                 for hist in itertools.product(alpha, repeat=d):
                     yield {"lazy": False, "schema": "relation", "n": n, "ops": [list(o) for o in hist]}
 
+        # every observer, with every argument value of its pool, at every cursor position - alone, twice in a row,
+        # and on a frame that has been appended to
+        for n in range(0, 4):
+            for name, args in _obs_variants(n):
+                o = ["obs", name, args]
+                for pre in range(0, n + 1):
+                    yield {"lazy": False, "n": n, "ops": [["fetchone"]] * pre + [o, ["fetchone"], o, ["fetchmany", 1], ["fetchall"]]}
+                yield {"lazy": False, "n": n, "ops": [["fetchmany", 1], ["append"], o, ["fetchone"]]}
+                yield {"lazy": False, "schema": "relation", "n": n, "ops": [["fetchmany", 1], o, ["fetchall"], o]}
+
+        # every frame-returning observer call, its result kept and used: the session scripts
+        for n in range(0, 4):
+            for name, args in _derive_args(n):
+                for pre in (0, 1):
+                    for script in _session_scripts(n):
+                        yield {"lazy": False, "n": n, "ops": [["fetchone"]] * pre + [["derive", name, args]] + script}
+
     return it(), (f"all eager histories of depth <= {depth} over the 12-letter alphabet (fetches, arraysize, observers, append, failing append) "
-                  f"on frames of 0..3 rows (list-backed; tuple-backed without append calls to depth 2; RelationSchema-backed to depth {rdepth})")
+                  f"on frames of 0..3 rows (list-backed; tuple-backed without append calls to depth 2; RelationSchema-backed to depth {rdepth}); "
+                  "every observer x every argument value of its pool x every cursor position; every frame-returning call "
+                  "(slice/head/tail over their argument pools, query, distinct) x cursor position 0/1 x 4 session scripts using the frame handed back")
+
+
+def _random_obs(rng, n, lazy):
+    if lazy:
+        return ["obs", rng.choice(PURE_OBS)]
+    if rng.random() < 0.5:
+        return ["obs", rng.choice(PURE_OBS + MAT_OBS)]
+    name, args = rng.choice(_obs_variants(n))
+    return ["obs", name, args]
 
 
 def _random_case(rng, lazy, schema="names"):
@@ -433,7 +802,7 @@ def _random_case(rng, lazy, schema="names"):
         elif r < 0.68:
             ops.append(["arraysize", rng.choice([0, 1, 2, 3, 7, 100])])
         elif r < 0.87:
-            ops.append(["obs", rng.choice(PURE_OBS if lazy else PURE_OBS + MAT_OBS)])
+            ops.append(_random_obs(rng, n, lazy))
         elif r < 0.94:
             ops.append(["append_bad", rng.choice(CHEAP_BAD[schema])])
         elif not lazy or r < 0.96:
@@ -475,6 +844,72 @@ def _failed_append_case(rng):
     return c
 
 
+def _session_case(rng):
+    """several frames alive at once: frames derived from frame 0 (and from derived frames), calls on all of them interleaved"""
+    n = rng.choice([1, 2, 3, 4, 6])
+    schema = rng.choice(["names", "names", "names", "relation"])
+    sizes = [n]          # a guess of each frame's size, for picking arguments only
+    ops = []
+    for _ in range(rng.randint(3, 16)):
+        fi = rng.randrange(len(sizes))
+        m = sizes[fi]
+        r = rng.random()
+        if r < 0.22 and len(sizes) < 4:
+            if rng.random() < 0.5:
+                # bounds that reach the whole frame
+                name, args = rng.choice([("slice", []), ("slice", [0, m]), ("slice", [0, m + 1]), ("head", [m]), ("head", [m + 3]),
+                                         ("tail", [m]), ("tail", [m + 2]), ("head", []), ("tail", []), ("slice", [-m - 1, None]),
+                                         ("query", []), ("distinct", [])])
+                sizes.append(m)
+            else:
+                name, args = rng.choice(_derive_args(m))
+                sizes.append(max(0, m - 1))
+            op = ["derive", name, args]
+        elif r < 0.45:
+            op = ["fetchone"]
+        elif r < 0.62:
+            op = ["fetchmany", rng.choice([None, 0, 1, 2, m + 1])]
+        elif r < 0.72:
+            op = ["fetchall"]
+        elif r < 0.84:
+            op = _random_obs(rng, m, False)
+        elif r < 0.9:
+            op = ["append_bad", rng.choice(CHEAP_BAD[schema])]
+        elif r < 0.96:
+            op = ["append"]
+            sizes[fi] += 1
+        else:
+            op = ["arraysize", rng.choice([1, 2, 100])]
+        ops.append(op if fi == 0 and rng.random() < 0.5 else ["on", fi, op])
+    c = {"lazy": False, "n": n, "ops": ops}
+    if schema == "relation":
+        c["schema"] = "relation"
+    return c
+
+
+def _lazy_view_case(rng):
+    """a generator-backed frame that IS materialised by an observer or a slice (outside the contract: oracle silent from
+    there on; the model still has to agree: the observer sees what the generator had left)"""
+    n = rng.choice([0, 1, 2, 3, 5])
+    ops = []
+    for _ in range(rng.randint(1, 8)):
+        r = rng.random()
+        if r < 0.35:
+            ops.append(["fetchone"])
+        elif r < 0.55:
+            ops.append(["fetchmany", rng.choice([None, 0, 1, 2])])
+        elif r < 0.62:
+            ops.append(["fetchall"])
+        elif r < 0.85:
+            name = rng.choice(["rowcount", "len", "shape", "collect", "getitem", "markdown", "slice", "head", "tail", "arrow", "to_batches"])
+            ops.append(["obs", name, rng.choice(OBS_ARGS(n)[name])])
+        elif r < 0.93:
+            ops.append(["derive", rng.choice(["slice", "head", "tail"]), rng.choice([[], [1]])])
+        else:
+            ops.append(["append"])
+    return {"lazy": True, "n": n, "ops": ops}
+
+
 def _tuple_case(rng):
     c = _random_case(rng, lazy=False)
     c["ops"] = [o for o in c["ops"] if not _is_append(o)]
@@ -483,25 +918,32 @@ def _tuple_case(rng):
 
 
 def generate(rng, tier):
-    count = 720 if tier == "quick" else 14400
+    count = 960 if tier == "quick" else 19200
     for i in range(count):
-        if i % 6 == 5:
+        m = i % 8
+        if m == 7:
+            yield _lazy_view_case(rng) if i % 16 == 15 else _session_case(rng)
+        elif m == 6:
+            yield _session_case(rng)
+        elif m == 5:
             yield _failed_append_case(rng)
-        elif i % 6 == 4:
+        elif m == 4:
             yield _tuple_case(rng)
-        elif i % 6 == 2:
+        elif m == 2:
             yield _random_case(rng, lazy=False, schema="relation")
         else:
-            yield _random_case(rng, lazy=(i % 3 == 0))
+            yield _random_case(rng, lazy=(m % 3 == 0))
 
 
 def search(rng):
     while True:
         r = rng.random()
-        if r < 0.3:
+        if r < 0.2:
             yield _random_case(rng, lazy=True)
-        elif r < 0.5:
+        elif r < 0.35:
             yield _failed_append_case(rng)
+        elif r < 0.65:
+            yield _session_case(rng)
         else:
             yield _random_case(rng, lazy=False, schema=rng.choice(["names", "names", "relation"]))
 
